@@ -1,10 +1,10 @@
 use syn::{spanned::Spanned, Expr, Lit, Meta, MetaNameValue, UnOp};
 
-use super::path::path_to_string;
+use super::path::{path_to_string, ungroup};
 
 #[inline]
 pub(crate) fn meta_name_value_2_isize(name_value: &MetaNameValue) -> syn::Result<isize> {
-    match &name_value.value {
+    match ungroup(&name_value.value) {
         Expr::Lit(lit) => match &lit.lit {
             Lit::Str(lit) => {
                 return lit
